@@ -390,7 +390,11 @@ def step (st : DSt) (toks : List String) : DSt × String :=
     match parseTree tree with
     | none => (st, "bad-tree")
     | some parsed =>
-      let inp : Inp := ⟨natD len, parsed, if beta = "none" then none else valOfString beta, boolOf pr⟩
+      -- the literal route of the transform pathway is computed by the model; the environment answers for the rest
+      let betaV := match parsed.bind litEval with
+        | some v => some v
+        | none => if beta = "none" then none else valOfString beta
+      let inp : Inp := ⟨natD len, parsed, betaV, boolOf pr⟩
       let (d, dtag) := detect (st.toolsLower.map (·.2)) (decodeCps raw) (decodeCps low)
       let latched := st.ros >= st.maxRos
       let (tr, out) := metabolize st.T (envOf st) st.cfg latched d inp (pathwayOfName forced)
